@@ -360,8 +360,10 @@ pub fn check(tier: Tier, threads: usize) -> CheckOutcome {
         }
     }
     // an oversized body streamed in small reads: what the connection keeps buffered must stay bounded
+    crate::watchdog::working_on("C10 oversized body streamed in 512-byte reads".into());
     for opc in [op::SET, op::GET, op::APPEND, op::NOOP, op::TOUCH] {
         for body in [LIMIT + 1, 2 * LIMIT, 64 * LIMIT, 1024 * LIMIT] {
+            crate::watchdog::beat();
             let world = World::new(SutCfg { item_limit: LIMIT, policy: Policy::None });
             let mut conn = world.conn();
             let mut r = Req::new(opc).opaque(0xb10a7);
@@ -390,6 +392,7 @@ pub fn check(tier: Tier, threads: usize) -> CheckOutcome {
             }
         }
     }
+    crate::watchdog::idle();
     let mut split_cases: Vec<(u8, u32)> = vec![];
     for opc in [op::SET, op::GET, op::INCR, op::NOOP, op::TOUCH, op::APPENDQ, op::QUIT] {
         for l in [LIMIT + 150, 2 * LIMIT, LIMIT + 70_000, LIMIT + 200_000] {
